@@ -1,29 +1,42 @@
 package main
 
 import (
+	"context"
 	"fmt"
 	"os"
 	"path/filepath"
 	"time"
 
+	"github.com/sheerbytes/sheerbytes/internal/transfer"
 	"github.com/sheerbytes/sheerbytes/verifharness/internal/hx"
 )
 
-// C01 / C03: real SendManifestMultiStream <-> real RecvManifestMultiStream on
-// generated trees over the in-memory transport, in mock-like and QUIC-like
-// stream-visibility modes, with a watchdog.
+// C01 / C03: the real SendManifestMultiStream <-> the real RecvManifestMultiStream on
+// generated trees: over the in-memory transport (stream visibility as in the
+// repository's mock or as in QUIC, 1-3 connections through NewMultiConn) and over
+// REAL loopback QUIC (1-2 connections), both root-directory modes, resume on/off
+// (including a second run over the finished tree), with a watchdog.  The oracle
+// is the property: both sides report success => the output directory is exactly
+// the hosted tree (paths, empty directories, zero-length files, bytes) plus the
+// tool's resume-metadata directory and nothing else; for C03 a healthy run that
+// fails or does not return is itself the violation.
 
 type c01case struct {
 	seed     uint64
 	cs       int
 	streams  int
+	conns    int
 	resume   bool
 	quicLike bool
+	realQUIC bool
+	rootDir  bool
+	twice    bool // fetch the same tree a second time into the same output (everything already there)
 	maxFiles int
 }
 
 func (c c01case) String() string {
-	return fmt.Sprintf("seed=%d cs=%d streams=%d resume=%v quic=%v maxFiles=%d", c.seed, c.cs, c.streams, c.resume, c.quicLike, c.maxFiles)
+	return fmt.Sprintf("seed=%d cs=%d streams=%d conns=%d resume=%v quicLike=%v realQUIC=%v rootDir=%v twice=%v maxFiles=%d",
+		c.seed, c.cs, c.streams, c.conns, c.resume, c.quicLike, c.realQUIC, c.rootDir, c.twice, c.maxFiles)
 }
 
 type c01outcome struct {
@@ -31,9 +44,10 @@ type c01outcome struct {
 	diff    []string
 	nfiles  int
 	nchunks int
+	setup   error
 }
 
-func runC01case(base string, c c01case, timeout time.Duration) c01outcome {
+func runC01case(base string, c c01case, timeout time.Duration, env *c08env) c01outcome {
 	r := hx.NewRand(c.seed)
 	tree := genTree(r, c.cs, c.maxFiles)
 	dir := filepath.Join(base, fmt.Sprintf("case%d", c.seed))
@@ -45,57 +59,150 @@ func runC01case(base string, c c01case, timeout time.Duration) c01outcome {
 		panic(err)
 	}
 	os.MkdirAll(out, 0755)
-	res := runXfer(src, out, xferCfg{chunkSize: c.cs, streams: c.streams, resume: c.resume, quicLike: c.quicLike, timeout: timeout})
-	o := c01outcome{res: res, nfiles: len(tree.files)}
+	cfg := xferCfg{chunkSize: c.cs, streams: c.streams, resume: c.resume, quicLike: c.quicLike, conns: c.conns, rootDir: c.rootDir, timeout: timeout}
+	o := c01outcome{nfiles: len(tree.files)}
 	for _, f := range tree.files {
 		o.nchunks += (len(f.data) + c.cs - 1) / c.cs
 	}
-	if res.sendDone && res.recvDone && res.sendErr == nil && res.recvErr == nil {
-		sd, _ := digestTree(src)
-		dd, _ := digestTree(out)
-		o.diff = diffTrees(sd, dd)
+	rounds := 1
+	if c.twice {
+		rounds = 2
+	}
+	for round := 0; round < rounds; round++ {
+		if c.realQUIC {
+			ctx, cancel := context.WithTimeout(context.Background(), 10*time.Second)
+			var sc, rc []transfer.Conn
+			var cleanups []func()
+			for i := 0; i < c.conns; i++ {
+				s, err := env.session(ctx)
+				if err != nil {
+					cancel()
+					o.setup = err
+					return o
+				}
+				// the hosting side accepts, the joining side dials (as in the application)
+				sc, rc = append(sc, s.acceptor), append(rc, s.dialer)
+				cleanups = append(cleanups, s.cleanup)
+			}
+			cancel()
+			sconn, rconn := sc[0], rc[0]
+			if c.conns > 1 {
+				sconn, _ = transfer.NewMultiConn(sc)
+				rconn, _ = transfer.NewMultiConn(rc)
+			}
+			o.res = runXferOn(src, out, sconn, rconn, cfg,
+				func(sender, graceful bool) {
+					if sender {
+						if graceful {
+							// the sender has finished: give the receiver a moment to drain, as the application does
+							time.Sleep(20 * time.Millisecond)
+						}
+						sconn.Close()
+					} else {
+						rconn.Close()
+					}
+				},
+				func() { sconn.Close(); rconn.Close() })
+			for _, f := range cleanups {
+				f()
+			}
+		} else {
+			o.res = runXfer(src, out, cfg)
+		}
+		if !(o.res.sendDone && o.res.recvDone && o.res.sendErr == nil && o.res.recvErr == nil) {
+			return o
+		}
+	}
+	sd, _ := digestTree(src)
+	got := out
+	if c.rootDir {
+		got = filepath.Join(out, "root")
+	}
+	dd, _ := digestTree(got)
+	o.diff = diffTrees(sd, dd)
+	if c.rootDir {
+		// nothing but <out>/root (and the metadata directory) may have appeared in <out>
+		ents, _ := os.ReadDir(out)
+		for _, e := range ents {
+			if e.Name() != "root" && e.Name() != ".thruflux_resumedata" {
+				o.diff = append(o.diff, "extra "+e.Name()+" beside the root directory")
+			}
+		}
 	}
 	return o
 }
 
-func runC01(cfg config) *hx.Report {
-	rep := hx.NewReport("C01")
-	rep.Rule = "generated trees (0-10 files, sizes around k*chunk +-1, empty files, empty dirs, nesting, odd names) x chunk sizes {1,3,16,4096} x 1-8 streams x resume on/off x stream visibility {at open (mock-like), at first byte (QUIC-like)}; real sender and receiver over the in-memory transport; non-trivial = at least 2 files or a multi-chunk file; distinct by (tree seed, config)"
-	rng := hx.NewRand(cfg.seed)
-	base, _ := os.MkdirTemp("", "c01")
-	defer os.RemoveAll(base)
-	n := 120
-	if cfg.tier == "thorough" {
-		n = 1500
-	}
+func c01cases(rng *hx.Rand, n int, quicShare int) []c01case {
+	var cs []c01case
 	for i := 0; i < n; i++ {
-		c := c01case{seed: rng.U64() % 1000000, cs: rng.Pick(1, 3, 16, 4096), streams: 1 + rng.Intn(8), resume: rng.Bool(), quicLike: rng.Intn(3) == 0, maxFiles: rng.Pick(0, 1, 2, 4, 10)}
+		c := c01case{seed: rng.U64() % 1000000, cs: rng.Pick(1, 3, 16, 4096), streams: 1 + rng.Intn(8), conns: rng.Pick(1, 1, 2, 3),
+			resume: rng.Bool(), quicLike: rng.Intn(3) == 0, rootDir: rng.Intn(3) == 0, maxFiles: rng.Pick(0, 1, 2, 4, 10)}
 		if c.cs == 1 {
 			c.maxFiles = rng.Pick(0, 1, 3)
 		}
-		o := runC01case(base, c, 6*time.Second)
+		c.twice = c.resume && rng.Intn(4) == 0
+		if quicShare > 0 && i%quicShare == 0 {
+			c.realQUIC, c.quicLike = true, false
+			c.conns = rng.Pick(1, 1, 2)
+			if c.cs == 1 {
+				c.cs = 3
+			}
+		}
+		cs = append(cs, c)
+	}
+	return cs
+}
+
+// runTransfers runs the matrix and reports per the given property's reading.
+func runTransfers(cfg config, rep *hx.Report, prop string, n int, quicShare int) {
+	rng := hx.NewRand(cfg.seed).Fork(11)
+	base, _ := os.MkdirTemp("", "c01")
+	defer os.RemoveAll(base)
+	env, err := newC08env()
+	if err != nil {
+		rep.Notes = append(rep.Notes, "loopback QUIC unavailable: "+err.Error())
+		quicShare = 0
+	} else {
+		defer env.close()
+	}
+	for i, c := range c01cases(rng, n, quicShare) {
+		o := runC01case(base, c, 8*time.Second, env)
 		rep.Evaluations++
-		kind := "mock-like"
+		kind := "memnet:mock-like"
 		if c.quicLike {
-			kind = "quic-like"
+			kind = "memnet:quic-like"
+		}
+		if c.realQUIC {
+			kind = "loopback-quic"
 		}
 		rep.Count(kind)
+		rep.Count(fmt.Sprintf("conns:%d", c.conns))
+		if c.rootDir {
+			rep.Count("root-dir-mode")
+		}
 		if o.nfiles >= 2 || o.nchunks >= 2 {
 			rep.Nontrivial(c.String())
 		}
+		desc := map[string]any{"case": c.String(), "files": o.nfiles, "chunks": o.nchunks}
 		switch {
+		case o.setup != nil:
+			rep.Count("setup-failed")
+			rep.Notes = append(rep.Notes, "QUIC session setup failed: "+o.setup.Error())
 		case !o.res.sendDone || !o.res.recvDone:
-			sig := "hang"
-			if c.quicLike {
-				sig = "hang:stream-gating"
-			}
-			rep.Violate(sig, fmt.Sprintf("no result after 6 s (sender returned: %v, receiver returned: %v) files=%d chunks=%d %s", o.res.sendDone, o.res.recvDone, o.nfiles, o.nchunks, c), map[string]any{"case": c.String()})
 			rep.Count("hang")
+			if prop == "C03" {
+				rep.Violate("hang:"+kind, fmt.Sprintf("healthy transfer: no result after 8 s (sender returned: %v, receiver returned: %v) files=%d chunks=%d %s", o.res.sendDone, o.res.recvDone, o.nfiles, o.nchunks, c), desc)
+			}
 		case o.res.sendErr != nil || o.res.recvErr != nil:
-			rep.Violate("healthy-transfer-failed", fmt.Sprintf("sender=%v receiver=%v files=%d %s", o.res.sendErr, o.res.recvErr, o.nfiles, c), map[string]any{"case": c.String()})
 			rep.Count("failed")
+			if prop == "C03" {
+				rep.Violate("healthy-transfer-failed:"+kind, fmt.Sprintf("sender=%v receiver=%v files=%d %s", o.res.sendErr, o.res.recvErr, o.nfiles, c), desc)
+			}
 		case len(o.diff) > 0:
-			rep.Violate("tree-differs", fmt.Sprintf("%v %s", o.diff, c), map[string]any{"case": c.String()})
+			rep.Count("tree-differs")
+			if prop == "C01" {
+				rep.Violate("tree-differs:"+kind, fmt.Sprintf("both sides reported success but: %v %s", o.diff, c), desc)
+			}
 		default:
 			rep.Count("ok")
 		}
@@ -103,6 +210,24 @@ func runC01(cfg config) *hx.Report {
 			rep.Sample(map[string]any{"case": c.String(), "files": o.nfiles, "chunks": o.nchunks, "ms": o.res.dur.Milliseconds()})
 		}
 	}
+}
+
+func runC01(cfg config) *hx.Report {
+	rep := hx.NewReport("C01")
+	rep.Rule = "generated trees (0-10 files, sizes around k*chunk +-1, empty files, empty dirs, nesting, odd names) x chunk sizes {1,3,16,4096} x 1-8 streams x 1-3 connections x resume on/off (and a second fetch over the finished tree) x root-directory mode x transport {in-memory with stream visibility at open, in-memory with QUIC-like visibility, real loopback QUIC}; real sender and receiver; non-trivial = at least 2 files or a multi-chunk file; distinct by (tree seed, configuration).  Plus honest stepped-receiver histories for the model correspondence"
+	n, share := 400, 5
+	if cfg.tier == "thorough" {
+		n, share = 2500, 4
+	}
+	runTransfers(cfg, rep, "C01", n, share)
+	// the receiver model's tie (honest programs only; C02 runs the faulty and hostile ones)
+	cf := &hx.CasesFile{Dir: cfg.out, Name: "recv", Module: "C02", Imports: []string{"Model.Recv", "Corr.C02"}, PerShard: 150}
+	nr := 150
+	if cfg.tier == "thorough" {
+		nr = 2000
+	}
+	runC02recvModes(cfg, rep, cf, nr, []string{"honest"})
+	cf.Close()
 	return rep
 }
 
